@@ -209,6 +209,17 @@ func c10Generate(thorough bool) []c10Case {
 		add("unicode-case", "CREATE TABLE t (a, "+kw+")")
 		add("unicode-case", "CREATE TABLE t (a PRIMARY KEY, b) "+kw)
 	}
+	// F5: characters that are white space for Unicode but not for SQLite (which knows blank, \t, \n, \f, \r
+	// only; every byte >= 0x80 is an identifier character): they are part of the name
+	for _, sp := range []string{"\u00a0", "\u0085", "\u2003", "\u3000", "\u2028", "\u1680", "\ufeff", "\v"} {
+		add("unicode-space", "CREATE TABLE t (a"+sp+"INTEGER PRIMARY KEY, b)")
+		add("unicode-space", "CREATE TABLE t (a"+sp+"UNIQUE, b)")
+		add("unicode-space", "CREATE TABLE t (a"+sp+"b, c, PRIMARY KEY (c))")
+		add("unicode-space", "CREATE TABLE t (a, b"+sp+"COLLATE"+sp+"NOCASE UNIQUE)")
+		add("unicode-space", "CREATE TABLE t (a, b, UNIQUE (a,"+sp+"b))")
+		add("unicode-space", "CREATE TABLE t (a, b)", "CREATE INDEX i1 ON t (b"+sp+"DESC)")
+		add("unicode-space", "CREATE TABLE t (a, b)", "CREATE INDEX i1 ON t (b)"+sp+"WHERE a > 1")
+	}
 	return cases
 }
 
